@@ -165,6 +165,13 @@ class Program:
         if os.environ.get("SA_NO_INLINE") != "1":
             from . import inline
 
+            # (0) definitions moved to another module and imported back are analysed where they were
+            try:
+                mv = inline.undo_moves({n: m.tree for n, m in self.modules.items()})
+                if mv:
+                    self.inlined.setdefault("<moved back>", []).extend(mv)
+            except Exception as e:
+                self.expansion_errors.append(f"<moves>: {type(e).__name__}: {e}")
             # (1) functions that were merely renamed get their original names back
             try:
                 rn = inline.undo_renames({n: m.tree for n, m in self.modules.items()})
